@@ -39,7 +39,11 @@ class Check(HCheck):
         # every sequence over a small alphabet (no merging of byte-equal states: what the object
         # remembers in RAM about ids must not matter, and the state key cannot see it)
         seq = [al.create(Ax), al.create(Axy, Ab), al.delete(0), al.page(Bb), al.clear("subdomain", {}), al.clear("domain", {A: "path1"}), al.REOPEN, ops[8]]
+        # counts: n creations, then close / reopen, then one more creation (a counter persisted in
+        # strides, a width boundary of the header field): n around 64, 128, 256
+        counts = [(("create_many", Bb, n),) for n in ((63, 64, 65, 66, 127, 128, 129, 255, 256, 257) if not thorough else tuple(range(1, 140)) + (254, 255, 256, 257, 258, 511, 512, 513))]
         return [
+            Space(Cfg("domain"), [al.REOPEN, al.create(Ax), al.page(A + b"p:q|"), al.delete(0)], 3, roots=counts, name="ids/counts-then-reopen", dedup=False),
             Space(Cfg("domain"), seq, 6 if thorough else 5, name="ids/all-sequences", dedup=False),
             Space(Cfg("domain"), ops, 6 if thorough else 5, name="ids/domain"),
             Space(Cfg("subdomain", {Ax: "path2"}), ops + [al.page(Axy), al.page(Ax + b"p:k|p:l|")], 5 if thorough else 4, roots=[al.R0, al.R1], name="ids/subdomain+path2"),
